@@ -190,7 +190,12 @@ class Engine(ExprMixin, CallMixin):
                 raise Unsupported('bare raise outside handler')
             return [('raise', e, st)]
         out = []
-        for v, s in self.ev(node.exc, st):
+        self._in_raise = isinstance(node.exc, ast.Name)
+        try:
+            evs = self.ev(node.exc, st)
+        finally:
+            self._in_raise = False
+        for v, s in evs:
             if isinstance(v, SClass):
                 v = SExc(v.name)
             if not is_exc(v):
